@@ -9,20 +9,8 @@
 #[test]
 fn kani_concrete_playback_t_pubsub_s1_p1_t2_polls3() {
     let concrete_vals: Vec<Vec<u8>> = vec![
-        // 0
-        vec![0],
         // 1
         vec![1],
-        // 0
-        vec![0],
-        // 3
-        vec![3],
-        // 0
-        vec![0],
-        // 0
-        vec![0],
-        // 0
-        vec![0],
         // 0
         vec![0],
         // 1
@@ -31,6 +19,18 @@ fn kani_concrete_playback_t_pubsub_s1_p1_t2_polls3() {
         vec![1],
         // 0
         vec![0],
+        // 0
+        vec![0],
+        // 0
+        vec![0],
+        // 0
+        vec![0],
+        // 0
+        vec![0],
+        // 1
+        vec![1],
+        // 1
+        vec![1],
         // 1
         vec![1],
     ];
